@@ -1,6 +1,7 @@
 // sim_world.hpp — world state shared by executor (sim_exec.cpp) and monitors (sim_mon.cpp)
 #pragma once
 #include "sim_core.hpp"
+#include <set>
 
 enum { OPX_DESTROY = OP_COUNT, OPX_REPLICA_CONSTRUCT, OPX_REPLAY_MSG };
 
@@ -59,7 +60,7 @@ struct Tracked {                        // reconstructed from what was observed 
 	uint8_t mayS[32], mayF[32], mustS[32];
 	Req prev, prev_alt; bool prev_known = true, prev_alt_ok = false;   // expected previousTransition()
 	bool logger = false;
-	std::vector<uint8_t> fired_ids;     // payload ids / identities already fired (C08 once-only) -- by payload bytes
+	std::set<uint64_t> fired_keys;      // payload identities of tasks that have fired (C08: once only)
 	Tracked() { memset(mayS, 0, 32); memset(mayF, 0, 32); memset(mustS, 0, 32); }
 };
 
@@ -70,6 +71,7 @@ struct OpExec {                         // one executed operation on one node
 	bool executed = false;              // false: skipped as illegal in the current state
 	int result = 0;                     // API return value where there is one
 	std::vector<int> results;           // PLAN_FILL: per append
+	std::vector<SutTask> filled;        // PLAN_FILL: the tasks as appended
 	std::vector<SutTask> walk;          // PLAN_WALK: visited
 	std::vector<HookEv> hooks;
 	std::vector<LogEv> logs;
@@ -88,6 +90,7 @@ struct Node {
 	Tracked T;
 	uint64_t digest_full = 0, digest_neutral = 0;
 	uint64_t last_obs = 0; bool last_obs_set = false;
+	uint32_t payload_seq = 0;           // stamped into bytes 0..1 of every payload issued to this instance (a copy continues its original's count)
 };
 
 struct Snapshot { std::vector<uint8_t> bytes; bool active; int state; std::vector<uint8_t> objmem; };
